@@ -200,6 +200,41 @@ static std::string KnownDefect(const std::string& /*expr*/, const RealResult& /*
 static constexpr uint32_t SET_LIMIT = 5000;
 using meta_ast = ccl::meta::UniqueCPPtr<SyntaxTree>;
 
+//! Names that ASTInterpreter::NameCollector attaches to a node (nodeVars), by name instead of slot id.
+//  KNOWN real defect: NameCollector::ViImperative does, for every `x:∈S` / `x:=e` block,
+//  `*begin(nodeVars[iter.Child(0)])` where Child(0) is the RESULT expression of I{result | blocks}
+//  (it means the block's variable). If the result expression mentions no identifier at all
+//  (e.g. I{0 | a:∈X1}) or only variables bound inside it, that vector is empty => null dereference.
+//  `crash` is set when the tree would trigger it, so that the driver does not die.
+static std::vector<std::string> CollectedNames(SyntaxTree::Cursor it, bool& crash) {
+  std::vector<std::string> names{};
+  std::vector<std::vector<std::string>> perChild{};
+  for (Index i = 0; i < it.ChildrenCount(); ++i) {
+    perChild.push_back(CollectedNames(it.Child(i), crash));
+    names.insert(names.end(), perChild.back().begin(), perChild.back().end());
+  }
+  const auto remove = [&names](const std::string& name) { std::erase(names, name); };
+  switch (it->id) {
+  default: break;
+  case TokenID::ID_GLOBAL: case TokenID::ID_FUNCTION: case TokenID::ID_PREDICATE: case TokenID::ID_LOCAL:
+    names.push_back(it->data.ToText());
+    break;
+  case TokenID::FORALL: case TokenID::EXISTS: case TokenID::NT_DECLARATIVE_EXPR:
+  case TokenID::NT_RECURSIVE_FULL: case TokenID::NT_RECURSIVE_SHORT:
+    if (!perChild.empty() && !perChild[0].empty()) remove(std::string{ perChild[0][0] });
+    break;
+  case TokenID::NT_IMPERATIVE_EXPR:
+    for (Index i = 1; i < it.ChildrenCount(); ++i) {
+      if (it(i).id == TokenID::ITERATE || it(i).id == TokenID::ASSIGN) {
+        if (perChild[0].empty()) { crash = true; break; }
+        remove(std::string{ perChild[0][0] });
+      }
+    }
+    break;
+  }
+  return names;
+}
+
 //! Parse (and optionally type-check) expr. nullopt if rejected.
 struct Prepared {
   std::string text;
@@ -236,6 +271,18 @@ static RealResult Compare(const Prepared& prep, const Env& env, const ref::DataE
   {
     SyntaxTree normal = ast;
     normal.Normalize(env.Asts());
+    bool crash = false;
+    (void)CollectedNames(normal.Root(), crash);
+    if (crash) {
+      // KNOWN real defect (would abort this process): see CollectedNames. Oracle still has to survive it.
+      (void)ref::Eval(ast, refEnv, SET_LIMIT);
+      ++stats.total;
+      ++stats.known;
+      if (++g_knownHits["imperative-result-without-names (null deref in NameCollector::ViImperative)"] <= 5) {
+        printf("  KNOWN[imperative-result-without-names] %s\n", expr.c_str());
+      }
+      return real;
+    }
     ASTInterpreter interpreter{ env.Data(), log.SendReporter() };
     real.value = interpreter.Evaluate(normal);
   }
@@ -779,19 +826,20 @@ static const std::vector<Template> TEMPLATES{
   { "#×#×#", SETBIN }, { "(#,#,#)", OTHER }, { "{#,#,#}", OTHER }, { "Fi1,2[#,#](#)", OTHER }, { "Fi2,1[#,#](#)", OTHER },
 };
 
-//! Binder templates: '#' domain / initial value hole (closed expression), '?' / '%' logic body,
-//  '@' / '$' set-expression body (full / small pool); bodies may mention the bound variables.
+//! Binder templates: '#' domain / initial value hole (closed expression); '?' (parenthesised when
+//  needed: quantifier body) / '!' / '%' logic body; '@' / '$' set-expression body ('%', '$': small pool);
+//  bodies may mention the bound variables.
 static const std::vector<Template> BINDERS{
   { "∀a∈# ?", LOGUN }, { "∃a∈# ?", LOGUN }, { "∀a,b∈# ?", LOGUN }, { "∃a,b∈# ?", LOGUN },
   { "∀(a,b)∈# ?", LOGUN }, { "∃(a,b)∈# ?", LOGUN },
-  { "D{a∈# | ?}", OTHER }, { "D{(a,b)∈# | ?}", OTHER }, { "{a∈# | ?}", OTHER },
-  { "I{@ | a:∈#}", OTHER }, { "I{$ | a:∈#; ?}", OTHER }, { "I{@ | a:∈#; %}", OTHER },
-  { "I{(a,b) | a:∈#; b:=@}", OTHER }, { "I{b | a:∈#; b:=@; %}", OTHER }, { "I{b | a:∈#; b:=$; ?}", OTHER },
-  { "I{@ | (a,b):∈#}", OTHER }, { "I{(b,a) | (a,b):∈#; ?}", OTHER }, { "I{$ | (a,b):∈#; ?}", OTHER },
-  { "I{@ | a:∈#; b:∈#}", OTHER }, { "I{a | a:=#; ?}", OTHER }, { "I{(a,b) | a:∈#; b:∈@}", OTHER },
-  { "I{$ | a:∈#; ?; b:=a; %}", OTHER },
-  { "R{a:=# | @}", OTHER }, { "R{a:=# | ? | $}", OTHER }, { "R{a:=# | % | @}", OTHER },
-  { "R{(a,b):=# | (@,b)}", OTHER }, { "R{(a,b):=# | (b,$)}", OTHER }, { "R{(a,b):=# | ? | (b,a)}", OTHER },
+  { "D{a∈# | !}", OTHER }, { "D{(a,b)∈# | !}", OTHER }, { "{a∈# | !}", OTHER },
+  { "I{@ | a:∈#}", OTHER }, { "I{$ | a:∈#; !}", OTHER }, { "I{@ | a:∈#; %}", OTHER },
+  { "I{(a,b) | a:∈#; b:=@}", OTHER }, { "I{b | a:∈#; b:=@; %}", OTHER }, { "I{b | a:∈#; b:=$; !}", OTHER },
+  { "I{@ | (a,b):∈#}", OTHER }, { "I{(b,a) | (a,b):∈#; !}", OTHER }, { "I{$ | (a,b):∈#; !}", OTHER },
+  { "I{@ | a:∈#; b:∈#}", OTHER }, { "I{a | a:=#; !}", OTHER }, { "I{(a,b) | a:∈#; b:∈@}", OTHER },
+  { "I{$ | a:∈#; !; b:=a; %}", OTHER },
+  { "R{a:=# | @}", OTHER }, { "R{a:=# | ! | $}", OTHER }, { "R{a:=# | % | @}", OTHER },
+  { "R{(a,b):=# | (@,b)}", OTHER }, { "R{(a,b):=# | (b,$)}", OTHER }, { "R{(a,b):=# | ! | (b,a)}", OTHER },
   { "R{(a,b):=# | % | ($,@)}", OTHER },
 };
 
@@ -836,6 +884,7 @@ static std::vector<Variant> g_variants(3);
 static Stats g_stats[3];
 static long g_cap = 30;         // cap on sampled depth-2 combinations per (template, argument types, deep holes)
 static long g_tried = 0, g_wellTyped = 0;
+static bool g_skipDepth2 = false;
 
 //! Type-check once, evaluate under every variant (typing is the same in all of them).
 static bool Run(const std::string& text, std::string& type) {
@@ -855,7 +904,8 @@ static std::string Fill(const Template& t, const std::vector<const Ex*>& args) {
   size_t k = 0;
   for (const char* p = t.pattern; *p != 0; ++p) {
     if (*p == '#' || *p == '@' || *p == '$') out += S(*args[k++]);
-    else if (*p == '?' || *p == '%') out += L(*args[k++]);
+    else if (*p == '?') out += L(*args[k++]);
+    else if (*p == '!' || *p == '%') out += args[k++]->text;
     else out += *p;
   }
   return out;
@@ -863,7 +913,7 @@ static std::string Fill(const Template& t, const std::vector<const Ex*>& args) {
 static std::vector<char> Holes(const Template& t) {
   std::vector<char> holes{};
   for (const char* p = t.pattern; *p != 0; ++p) {
-    if (*p == '#' || *p == '?' || *p == '@' || *p == '%' || *p == '$') holes.push_back(*p);
+    if (*p == '#' || *p == '?' || *p == '!' || *p == '@' || *p == '%' || *p == '$') holes.push_back(*p);
   }
   return holes;
 }
@@ -979,6 +1029,7 @@ static void RunAll() {
 
   // ---- depth 2: every template with one depth-1 argument (exhaustive) or two (sampled)
   for (const auto& t : TEMPLATES) {
+    if (g_skipDepth2) break;
     Enumerate(t, 1, nullptr);
     Enumerate(t, 2, nullptr);
     printf("generator: depth 2 template %-16s cumulative well-typed %ld (tried %ld) t=%.1fs\n", t.pattern, g_wellTyped, g_tried, Now());
@@ -993,6 +1044,7 @@ static void RunAll() {
   for (const auto& [key, bucket] : g_buckets) {
     if (key == "LOGIC") continue;
     for (const auto& e : bucket.shallow) domains.push_back(e);
+    if (bucket.shallow.empty() && key.size() > 24) continue;  // skip exotic nested tuple types
     for (size_t i = 0; i < bucket.deep.size() && i < 2; ++i) domains.push_back(bucket.deep[i]);
   }
   std::vector<Ex> vocabulary = atoms;
@@ -1037,32 +1089,52 @@ static void RunAll() {
   const long beforeBinders = g_wellTyped;
   for (const auto& t : BINDERS) {
     const auto holes = Holes(t);
+    const size_t n = holes.size();
     std::vector<const std::vector<Ex>*> lists{};
     for (const char h : holes) {
-      lists.push_back(h == '#' ? &domains : h == '?' ? &openLogic : h == '@' ? &openSet : h == '%' ? &smallLogic : &smallSet);
+      lists.push_back(h == '#' ? &domains : (h == '?' || h == '!') ? &openLogic : h == '@' ? &openSet : h == '%' ? &smallLogic : &smallSet);
     }
-    // typing depends on the domain TYPE and the body texts: memoise rejections on that key
-    std::set<std::string> rejected{}, accepted{};
-    std::vector<size_t> idx(holes.size(), 0);
-    for (;;) {
-      std::vector<const Ex*> args{};
-      std::string key{};
-      for (size_t h = 0; h < holes.size(); ++h) {
-        const Ex& e = (*lists[h])[idx[h]];
-        args.push_back(&e);
-        key += "|" + (holes[h] == '#' ? TypeKey(e) : e.text);
+    // Typing of each body depends only on the TYPE of the domain (hole 0) and on that body, so the
+    // bodies are filtered one hole at a time against a neutral filling of the other holes
+    // (logic: 1=1; set-expression: the bound variable a, then b), per domain type.
+    const Ex neutralLogic{ "1=1", PRED, "LOGIC" }, neutralA{ "a", ATOM, "" }, neutralB{ "b", ATOM, "" };
+    std::vector<const Ex*> neutral(n, nullptr);
+    {
+      int setHoles = 0;
+      for (size_t h = 1; h < n; ++h) {
+        const bool logic = holes[h] == '?' || holes[h] == '!' || holes[h] == '%';
+        neutral[h] = logic ? &neutralLogic : (setHoles++ == 0 ? &neutralA : &neutralB);
       }
-      if (!rejected.contains(key)) {
+    }
+    std::map<std::string, std::vector<std::vector<const Ex*>>> validByType{};
+    for (const auto& domain : domains) {
+      const auto typeKey = TypeKey(domain);
+      if (!validByType.contains(typeKey)) {
+        auto& valid = validByType[typeKey];
+        valid.resize(n);
+        for (size_t h = 1; h < n; ++h) {
+          for (const auto& body : *lists[h]) {
+            std::vector<const Ex*> args = neutral;
+            args[0] = &domain;
+            args[h] = &body;
+            std::string type{};
+            if (Run(Fill(t, args), type)) valid[h].push_back(&body);
+          }
+        }
+      }
+      const auto& valid = validByType.at(typeKey);
+      uint64_t total = 1;
+      for (size_t h = 1; h < n; ++h) total *= valid[h].size();
+      for (uint64_t lin = 0; lin < total; ++lin) {
+        std::vector<const Ex*> args(n, &domain);
+        uint64_t rest = lin;
+        for (size_t h = 1; h < n; ++h) {
+          args[h] = valid[h][rest % valid[h].size()];
+          rest /= valid[h].size();
+        }
         std::string type{};
-        if (Run(Fill(t, args), type)) accepted.insert(key);
-        else if (!accepted.contains(key)) rejected.insert(key);
+        (void)Run(Fill(t, args), type);
       }
-      size_t h = 0;
-      for (; h < holes.size(); ++h) {
-        if (++idx[h] < lists[h]->size()) break;
-        idx[h] = 0;
-      }
-      if (h == holes.size()) break;
     }
     printf("generator: binder %-34s cumulative well-typed %ld (tried %ld) t=%.1fs\n", t.pattern, g_wellTyped - beforeBinders, g_tried, Now());
     fflush(stdout);
@@ -1100,6 +1172,7 @@ int main(int argc, char** argv) {
     if (!strcmp(argv[i], "-v")) g_verbose = true;
     else if (!strcmp(argv[i], "-cap") && i + 1 < argc) gen::g_cap = atol(argv[++i]);
     else if (!strcmp(argv[i], "-only") && i + 1 < argc) only = argv[++i];
+    else if (!strcmp(argv[i], "-skip2")) gen::g_skipDepth2 = true;
   }
   setvbuf(stdout, nullptr, _IOLBF, 0);
   if (only.empty() || only == "sets") TestSetAlgebra();
